@@ -203,7 +203,8 @@ def structure(sub_spelling):
                Entry("Member A", 0x2100, 1, 0x04, "rw", default=v2, default_text=num(v2), pdo=1,
                      factor="0.5", unit="mm", description="first member"),
                Entry("Member #3 C", 0x2100, 3, 0x05, "wo", default=v3, default_text=num(v3, "hexl")),
-               Entry("Member at sub 0x1B", 0x2100, 0x1B, 0x06, "rw", default=v1, default_text=num(v1))]
+               Entry("Member at sub 0x1B", 0x2100, 0x1B, 0x06, "rw", default=v1, default_text=num(v1)),
+               Entry("Blob member", 0x2100, 0x1C, 0x0F, "rw")]
     d.record("A record", 0x2100, members, "0x9", sub_spelling, storage="RAM")
     # objects without the ObjectType keyword are variables wherever they stand: also right after a record / an array
     plain2 = Entry("Plain var after a record", 0x2150, 0, 0x07, "rw", default=v1, default_text=num(v1), object_type=None)
@@ -247,7 +248,7 @@ def structure(sub_spelling):
     rec = od[0x2100]
     sx.prove(isinstance(rec, ODRecord) and rec.name == "A record" and rec.storage_location == "RAM", "record object",
              tag + "/record")
-    sx.prove(len(rec) == 4, "record sub-indices",
+    sx.prove(len(rec) == 5, "record sub-indices",
              tag + "/record-subs")
     for m in members:
         _check_var(rec[m.sub], m, tag + "/member")
@@ -265,6 +266,11 @@ def structure(sub_spelling):
                  tag + "/boolean")
     sx.prove(od["A record"] is rec and od["A record.Member A"] is rec[1] and od["A record"]["Member #3 C"] is rec[3] and od["A record.Member #3 C"] is rec[3]
              and od[0x2100][1] is rec["Member A"], "lookup by index, name and Parent.Child", tag + "/lookup")
+    # every kind of entry is reachable by its name as well, whatever its data type (DOMAIN, strings, REAL)
+    for e in (dom, txt, octs, real):
+        sx.prove(e.name in od and od[e.name] is od[e.index], "lookup by name of a %s entry" % e.name, tag + "/lookup-by-name")
+    sx.prove(od["A record.Blob member"] is rec[0x1C] and rec["Blob member"] is rec[0x1C], "DOMAIN member by name",
+             tag + "/lookup-by-name")
     _check_var(od[0x2304], dotted, tag + "/dotted")
     sx.prove(od["Max. motor speed"] is od[0x2304] and "Max. motor speed" in od, "top-level name containing a full stop",
              tag + "/dotted-lookup")
